@@ -94,10 +94,10 @@ func genC14(t *rapid.T) C14Case {
 	c := C14Case{Infix: rapid.IntRange(0, 3).Draw(t, "infix") == 0, Mask: rapid.IntRange(0, 15).Draw(t, "mask"), DirMask: -1}
 	var tree *m.Node
 	if c.Infix {
-		tree = g.Expr(rootTy(t), g.Depth)
+		tree = g.Program(rootTy(t))
 		normSymbolic(tree)
 	} else {
-		tree = wrapRoot(g.Expr(rootTy(t), g.Depth))
+		tree = wrapRoot(g.Program(rootTy(t)))
 	}
 	fixEmptyLists(tree)
 	u := UniverseFor(t, tree, false)
